@@ -409,6 +409,9 @@ func (w *vWorld) buildRequest(q vReq) *http.Request {
 		req, _ = http.NewRequest(q.Method, "https://"+vHost+"/", body)
 		req.URL.Path = q.Path
 	}
+	if req.Body == nil {
+		req.Body = http.NoBody // what a server-side request carries when there is no body (never nil)
+	}
 	req.RequestURI = target
 	req.Host = vHost
 	if q.Host != "" {
